@@ -12,7 +12,7 @@ functions are shared by the symbolic evaluation (JEnv) and the concrete evaluati
 """
 import z3
 
-from driver import Property, Task
+from driver import Bounded, Property, Task
 from pyvc.core import And, Eq, Implies, Not, Or, SBool, SInt, SStr, Outside, _t
 from pyvc.interp import Config, Obj, PyRaise, PyDict, PyList, SSeq
 from pyvc import sqlmodel as sm
@@ -652,6 +652,8 @@ def concrete_clauses(rp, obs):
 def violates(rp, obs):
     if "harness_error" in obs or not obs.get("outcome"):
         return False
+    if rp["obligation"].startswith("bounded."):
+        return bool(obs.get("violations"))
     want = rp["obligation"].split(".", 1)[1]
     for n, c in concrete_clauses(rp, obs):
         if n == want and c is False:
@@ -673,8 +675,15 @@ ASSUMPTIONS = [
     "soundness of z3 and of pyvc (path witnesses are replayed on CPython + real sqlite3)",
 ]
 
+FALLBACK = Bounded(
+    "operation_sequences_vs_reference_map", "journal_sweep", {"runs": 150, "steps": 8}, {"runs": 1500, "steps": 10},
+    "real Journaler on in-memory sqlite vs a reference map after every step: 5 fixed + 150 (thorough: 1500) seeded "
+    "random sequences of <= 8 (10) operations over 2 mirrored sessions x 2 directions x numbers 1..6 and 1000000",
+    only_when_undecided=True)
+
 PROPERTY = Property(
     "C13", make_tasks("c13"),
+    bounded=[FALLBACK],
     assumptions=ASSUMPTIONS,
     trusted_base=["pyvc", "z3 5.1.0", "sqlmodel.py (assumed contract of sqlite3)"],
     functions=FUNCS,
